@@ -27,8 +27,16 @@ def _lib() -> t.Any:
     return sess.lib()
 
 
-def client_call_spec(what: str, v: int) -> t.Tuple[str, t.Dict[str, t.Any], t.Dict[str, t.Any]]:
-    """-> (method name, kwargs, expected abstract message without id)"""
+UNENCODABLE = "x\udc80"  # a str that cannot be encoded as UTF-8: the call fails while its message is being packed
+
+
+def client_call_spec(what: str, v: int, bad: bool = False) -> t.Tuple[str, t.Dict[str, t.Any], t.Dict[str, t.Any]]:
+    """-> (method name, kwargs, expected abstract message without id); bad=True: the same call with a string argument
+    that cannot be encoded (it must fail and leave no trace)"""
+    if bad and what != "unbind":
+        meth, kw, exp = client_call_spec(what, v)
+        field = {"bind_simple": "dn", "bind_sasl": "mechanism", "search_request": "base_object", "extended_request": "name"}[meth]
+        return meth, dict(kw, **{field: UNENCODABLE}), exp
     s = _lib()
     if what == "bind":
         v %= 5
@@ -77,8 +85,17 @@ def client_call_spec(what: str, v: int) -> t.Tuple[str, t.Dict[str, t.Any], t.Di
     raise ValueError(what)
 
 
-def server_call_spec(kind: str, mid: int, code: int, v: int) -> t.Tuple[str, t.Dict[str, t.Any], t.Dict[str, t.Any], t.Optional[str]]:
+def server_call_spec(kind: str, mid: int, code: int, v: int, bad: bool = False) -> t.Tuple[str, t.Dict[str, t.Any], t.Dict[str, t.Any], t.Optional[str]]:
     """-> (method, kwargs, expected abstract message, extended-response name)"""
+    if bad and kind != "unbind":
+        meth, kw, exp, name = server_call_spec(kind, mid, code, v)
+        if kind == "entry":
+            kw = dict(kw, object_name=UNENCODABLE)
+        elif kind == "ref":
+            kw = dict(kw, uris=["ldap://r", UNENCODABLE])
+        else:
+            kw = dict(kw, **{("matched_dn" if v % 2 else "diagnostics_message"): UNENCODABLE})
+        return meth, kw, exp, name
     s = _lib()
     rc = s.LDAPResultCode(code)
     res = {"code": code, "matched": "", "diag": "", "referral": []}
@@ -149,6 +166,7 @@ GARBAGE = [b"\x04\x00", b"\x31\x00", b"\x30\x80", b"\x30\x03\x02\x01\x01", b"\x3
 
 _CODES = st.sampled_from([0, 0, 0, 14, 14, 49, 32, 2, 80, 4096, -3])
 _V = st.integers(0, 11)
+_BAD = st.sampled_from([False] * 11 + [True])  # 1 call in 12 carries an argument that cannot be encoded
 
 
 def id_refs(kinds: t.Sequence[str]) -> t.Any:
@@ -182,7 +200,7 @@ def _sized_list(elem: t.Any, max_steps: int) -> t.Any:
 def client_steps(max_steps: int = 40, drains: bool = False, closers: bool = True) -> t.Any:
     """Mostly conversation-preserving steps; closing steps are rare so that deep states are reached,
     and every history may continue after closure."""
-    call = st.fixed_dictionaries({"op": st.just("call"), "what": st.sampled_from(["search", "search", "extended", "extended", "bind"]), "v": _V})
+    call = st.fixed_dictionaries({"op": st.just("call"), "what": st.sampled_from(["search", "search", "extended", "extended", "bind"]), "v": _V, "bad": _BAD})
     resp_kinds = st.sampled_from(["bindResponse", "searchResEntry", "searchResRef", "searchResDone", "extendedResp"])
     req_kinds = st.sampled_from(["bindRequest", "searchRequest", "extendedReq", "unbindRequest"])
     good_ids = id_refs(["open", "open", "search", "single"])
@@ -227,9 +245,9 @@ def server_steps(max_steps: int = 40, drains: bool = False, closers: bool = True
     recv_bad = st.fixed_dictionaries({"op": st.just("recv"), "msgs": st.lists(_weighted([(2, msg_ok), (1, msg_bad)]), min_size=1, max_size=3)})
     any_ids = id_refs(["open", "open", "open", "open", "search", "single", "completed", "completed", "never", "zero", "alias", "alias"])
     respond_auto = st.fixed_dictionaries({"op": st.just("respond"), "kind": st.just("auto"), "final": st.booleans(),
-                                          "id": id_refs(["open", "open", "search", "single"]), "code": _CODES, "v": _V})
+                                          "id": id_refs(["open", "open", "search", "single"]), "code": _CODES, "v": _V, "bad": _BAD})
     respond_any = st.fixed_dictionaries({"op": st.just("respond"), "kind": st.sampled_from(["bind", "entry", "ref", "done", "extended"]),
-                                         "id": any_ids, "code": _CODES, "v": _V})
+                                         "id": any_ids, "code": _CODES, "v": _V, "bad": _BAD})
     notice = st.fixed_dictionaries({"op": st.just("respond"), "kind": st.just("notice"), "id": any_ids, "code": _CODES, "v": _V})
     unbind = st.just({"op": "call", "what": "unbind", "v": 0})
     garbage = st.fixed_dictionaries({"op": st.just("garbage"), "data": st.sampled_from(GARBAGE)})
@@ -274,17 +292,18 @@ def exec_step(s: t.Any, side: str, step: t.Dict[str, t.Any], mdl: model.Model) -
     op = step["op"]
     if op == "call" and not (side == "server" and step["what"] != "unbind"):
         what = step["what"]
-        meth, kw, exp = client_call_spec(what, step.get("v", 0))
+        bad = bool(step.get("bad")) and what != "unbind"
+        meth, kw, exp = client_call_spec(what, step.get("v", 0), bad)
         try:
             r = getattr(s, meth)(**kw)
         except BaseException as e:
-            return Outcome("call", False, e, None, exp, {"what": what})
+            return Outcome("call", False, e, None, exp, {"what": what, "unencodable": bad})
         exp = dict(exp)
         if what != "unbind":
             exp["id"] = r
         else:
             exp["id"] = 0
-        return Outcome("call", True, None, r, exp, {"what": what})
+        return Outcome("call", True, None, r, exp, {"what": what, "unencodable": bad})
     if op == "respond":
         mid = mdl.resolve(step["id"])
         kind = step["kind"]
@@ -292,13 +311,14 @@ def exec_step(s: t.Any, side: str, step: t.Dict[str, t.Any], mdl: model.Model) -
             # the response kind that matches the request (non-final or final for searches)
             ok = mdl.opkind.get(mid, "extended")
             kind = {"bind": "bind", "extended": "extended"}.get(ok) or (["entry", "ref"][step.get("v", 0) % 2] if not step.get("final") else "done")
-        meth, kw, exp, name = server_call_spec(kind, mid, step.get("code", 0), step.get("v", 0))
+        bad = bool(step.get("bad"))
+        meth, kw, exp, name = server_call_spec(kind, mid, step.get("code", 0), step.get("v", 0), bad)
         step = dict(step, kind=kind)
         try:
             r = getattr(s, meth)(**kw)
         except BaseException as e:
-            return Outcome("call", False, e, None, exp, {"what": kind, "id": mid, "name": name})
-        return Outcome("call", True, None, r, exp, {"what": kind, "id": mid, "name": name})
+            return Outcome("call", False, e, None, exp, {"what": kind, "id": mid, "name": name, "unencodable": bad})
+        return Outcome("call", True, None, r, exp, {"what": kind, "id": mid, "name": name, "unencodable": bad})
     if op == "recv":
         msgs = []
         scratch = mdl.clone()  # ids are resolved message by message, as the delivery would be processed
@@ -493,7 +513,7 @@ def run_lockstep(side: str, steps: t.Sequence[t.Dict[str, t.Any]], probe_open: b
                 tr.add("closed-absorbing", f"{side}:bytes-emitted-after-CLOSED", f"{where}: {emitted.hex()}")
                 tr.diverged = True
                 break
-            if out.kind == "call" and not isinstance(out.exc, LDAPError):
+            if out.kind == "call" and not isinstance(out.exc, LDAPError) and not out.info.get("unencodable"):
                 tr.add("refusal-type", f"{side}:call-raised-{type(out.exc).__name__}", f"{where}: {out.exc!r}")
             if out.kind in ("recv", "garbage") and not isinstance(out.exc, ProtocolError):
                 tr.add("refusal-type", f"{side}:receive-raised-{type(out.exc).__name__}", f"{where}: {out.exc!r}")
@@ -505,6 +525,28 @@ def run_lockstep(side: str, steps: t.Sequence[t.Dict[str, t.Any]], probe_open: b
                 verdict = pre.client_call(what) if side == "client" else pre.server_call("unbind", 0)
             else:
                 verdict = pre.server_call(what if what != "notice" else "extended", out.info["id"], step.get("code", 0), out.info["name"])
+            if out.info.get("unencodable"):
+                # a call whose message cannot be packed fails (with whatever error) and must be a no-op, whether or not
+                # the session would have accepted the same call with encodable arguments
+                tr.events.append(f"call:{what}:{pre.state}:unencodable-argument:{'else-accept' if verdict.accepted else 'else-refuse'}")
+                if out.ok:
+                    tr.add("call-accept", f"{side}:call-with-unencodable-argument-accepted", f"{where}: returned {out.value!r}, emitted {emitted.hex()}")
+                    tr.diverged = True
+                    break
+                tr.refused_calls += 1
+                if emitted:
+                    tr.add("refused-bytes", f"{side}:failed-call-left-bytes", f"{where}: raised {out.exc!r} but left {emitted.hex()}")
+                if after_state == "OPEN" and mdl.state == "NEW":
+                    mdl.refused_call_leniency()
+                if after_state != mdl.state:
+                    tr.add("state", f"{side}:failed-call-changed-state", f"{where}: {before_state} -> {after_state}")
+                    tr.diverged = True
+                    break
+                if probe_open:
+                    bad = _probe(s, side, mdl)
+                    if bad:
+                        tr.add("open-set", f"{side}:failed-call-changed-operations-in-progress", f"{where}: {bad}")
+                continue
             tr.events.append(f"call:{what}:{pre.state}:{'accept' if verdict.accepted else 'refuse:' + verdict.why}")
             if out.ok != verdict.accepted:
                 if out.ok:
